@@ -44,6 +44,10 @@ def p2Step (parse : String → Option K) (fmt : K → String) (cmd : String) (ar
       match parse x, nums xp, nums fp with
       | some x, some xp, some fp => [fmt (interp x xp fp)]
       | _, _, _ => ["bad-op"]
+  | "qgrid", [[p]] =>
+      match parse p with
+      | some p => [" ".intercalate ((quantileGrid p).map fmt)]
+      | none => ["bad-op"]
   | "digitize", [[s], edges] =>
       match parse s, nums edges with
       | some s, some edges => [toString (digitize s edges)]
